@@ -270,4 +270,74 @@ func genC24(g *gen) {
 	}())
 	g.line("Definition gen_auth_header : string := %s.", coqString(header))
 	g.line("Definition gen_query_key : string := %s.", coqString(queryKey))
+
+	// --- from the configuration file to health.ServerConfig -----------------
+	// agent.go: the health.ServerConfig literal of initComponents
+	af := parseFile("internal/agent/agent.go")
+	var wiring []string
+	wiringSites := 0
+	if af != nil {
+		ast.Inspect(af, func(n ast.Node) bool {
+			cl, ok := n.(*ast.CompositeLit)
+			if !ok || src(cl.Type) != "health.ServerConfig" {
+				return true
+			}
+			wiringSites++
+			for _, el := range cl.Elts {
+				kv, ok := el.(*ast.KeyValueExpr)
+				if !ok {
+					continue
+				}
+				switch k := src(kv.Key); k {
+				case "TokenHash", "EnablePprof", "EnableDashboard", "EnableRemoteAPI":
+					wiring = append(wiring, fmt.Sprintf("(%s, %s)", coqString(k), coqString(nospace(src(kv.Value)))))
+				}
+			}
+			return true
+		})
+	}
+	// config.go: the three group methods of HTTPConfig
+	cf := parseFile("internal/config/config.go")
+	var methods []string
+	for _, m := range []string{"PprofEnabled", "DashboardEnabled", "RemoteAPIEnabled"} {
+		shape := "?"
+		if fd := findFunc(cf, "HTTPConfig", m); fd != nil && fd.Body != nil {
+			parts := make([]string, len(fd.Body.List))
+			for i, st := range fd.Body.List {
+				parts[i] = nospace(src(st))
+			}
+			shape = strings.Join(parts, ";")
+		}
+		methods = append(methods, fmt.Sprintf("(%s, %s)", coqString(m), coqString(shape)))
+	}
+	// other writers of the endpoint toggles in package config (e.g. a normalisation pass)
+	toggleWriters := []string{}
+	for _, file := range parseDir("internal/config") {
+		for _, d := range file.Decls {
+			fd, ok := d.(*ast.FuncDecl)
+			if !ok || fd.Body == nil {
+				continue
+			}
+			ast.Inspect(fd.Body, func(n ast.Node) bool {
+				as, ok := n.(*ast.AssignStmt)
+				if !ok {
+					return true
+				}
+				for _, l := range as.Lhs {
+					t := nospace(src(l))
+					for _, f := range []string{".HTTP.Minimal", ".HTTP.Pprof", ".HTTP.Dashboard", ".HTTP.RemoteAPI", ".HTTP.TokenHash"} {
+						if strings.HasSuffix(t, f) {
+							toggleWriters = append(toggleWriters, fd.Name.Name+":"+t)
+						}
+					}
+				}
+				return true
+			})
+		}
+	}
+	sort.Strings(toggleWriters)
+	g.line("Definition gen_server_config_literals : N := %d.", wiringSites)
+	g.line("Definition gen_server_config_wiring : list (string * string) := [%s].", strings.Join(wiring, "; "))
+	g.line("Definition gen_group_methods : list (string * string) := [%s].", strings.Join(methods, "; "))
+	g.line("Definition gen_http_toggle_writers : list string := %s.", coqStrListHttpcfg(toggleWriters))
 }
